@@ -112,6 +112,37 @@ pub fn c18_cli_exec() {
     });
 }
 
+/// `--no-shell` with ONE concrete word that contains blanks, a tab and a quote: it is the program, whole,
+/// with no arguments - nothing is split or interpreted. Concrete bytes keep this decidable for changes that add
+/// per-character work (seed r4-noshell-single-word-split made the symbolic-byte harness hit its wall cap).
+#[kani::proof]
+#[kani::stub(stdpanic::catch_unwind, crate::util::catch_unwind_stub)]
+#[kani::stub(miette::eyreish::capture_handler, crate::util::capture_handler_stub)]
+#[kani::unwind(20)]
+pub fn c18_cli_exec_concrete_single_word() {
+    let wrap = any_wrap();
+    let mut program = Vec::with_capacity(1);
+    program.push(String::from("my tools/h\t'x"));
+    let mut args = baseline_args(program);
+    args.command.wrap_process = wrap;
+    args.command.no_shell = true;
+    let r = interpret_command_args(&args);
+    assert!(r.is_ok(), "C18: no-shell command rejected");
+    if let Ok(cmd) = &r {
+        check_options(&cmd.options, wrap);
+        match &cmd.program {
+            Program::Exec { prog, args: argv } => {
+                assert!(lit(prog.as_os_str().as_bytes(), b"my tools/h\t'x"), "C18: program is not the first word, byte for byte");
+                assert!(argv.is_empty(), "C18: argument count changed");
+            }
+            Program::Shell { .. } => assert!(false, "C18: no-shell command wrapped in a shell"),
+        }
+    }
+    kani::cover!(r.is_ok(), "single word with blanks kept whole");
+    std::mem::forget(r);
+    std::mem::forget(args);
+}
+
 /// `--shell=sh` given explicitly ⇒ `Program::Shell { shell: sh -c, command: words joined by one space, args: [] }`.
 /// One shape (word count, lengths) per harness. Verify-only: ~30-43 s / 1.4 GB each. Under `--concrete-playback`
 /// CBMC emits one full trace of this 44 MB goto program per separately falsified cover / Kani reachability check
